@@ -1550,7 +1550,11 @@ class Evaluator:
             if bound is not None:
                 names = [p for p in fi.params() if p in bound]
                 a = fi.node.args
+                if a.vararg is not None and a.vararg.arg in bound and a.vararg.arg not in names:
+                    names.append(a.vararg.arg)  # f(x, *rest): different `rest` must give different terms
                 names += [p.arg for p in a.kwonlyargs if p.arg in bound]
+                if a.kwarg is not None and a.kwarg.arg in bound and bound[a.kwarg.arg]:
+                    names.append(a.kwarg.arg)
                 return tm.app(q, [bound[n] for n in names], ty=rty)
             return tm.app(q, pos, tuple(sorted(kw.items())), ty=rty)
         sub = self.run(fi, bound, depth=fr.depth + 1)
